@@ -81,3 +81,64 @@ func Harness_C09_persisted() {
 		zzsym.Assert(w.status < 200 || w.status > 299, "a mutation or subscription over GET is refused")
 	}
 }
+
+func Setup_C09_negotiationSequence() { Setup_C09_http() }
+
+// Harness_C09_negotiationSequence: two requests through one server whose
+// transports carry configured response headers (none / some without a
+// Content-Type): the Content-Type and the client-error status of the second
+// answer follow the second request's own Accept header, whatever the first
+// request negotiated.
+func Harness_C09_negotiationSequence() {
+	es := &hES{}
+	rhi := zzsym.Choice("resphdr", 2)
+	var hdr map[string][]string
+	if hRespHdrs[rhi].hdr != nil {
+		hdr = map[string][]string{}
+		for k, v := range hRespHdrs[rhi].hdr {
+			hdr[k] = append([]string(nil), v...)
+		}
+	}
+	srv := hServer(es, hdr)
+	mk := func(d hDoc, get bool, acc hAccept) *http.Request {
+		r := &http.Request{Header: http.Header{}, URL: &url.URL{Path: "/query"}}
+		if acc.header != "" {
+			r.Header.Set("Accept", acc.header)
+		}
+		if get {
+			r.Method = "GET"
+			v := url.Values{}
+			v.Set("query", d.query)
+			r.URL.RawQuery = v.Encode()
+			r.Body = http.NoBody
+		} else {
+			r.Method = "POST"
+			r.Header.Set("Content-Type", "application/json")
+			r.Body = io.NopCloser(strings.NewReader(hJSONBody(d)))
+		}
+		return r
+	}
+	acc1 := hAccepts[zzsym.Choice("accept1", 3)]
+	acc2 := hAccepts[zzsym.Choice("accept2", 3)]
+	get1, get2 := zzsym.Choice("m1", 2) == 0, zzsym.Choice("m2", 2) == 0
+	second := []hDoc{hDocs[0], hDocs[7]}[zzsym.Choice("second", 2)] // a valid query / a validation error
+	srv.ServeHTTP(newHWriter(), mk(hDocs[0], get1, acc1))
+	w := newHWriter()
+	srv.ServeHTTP(w, mk(second, get2, acc2))
+	ct, ok := hContentType(w)
+	zzsym.Assert(ok && ct == acc2.want, "the Content-Type of an answer is negotiated from its own request's Accept header")
+	if second.kind == "" {
+		if acc2.want == hGRJ {
+			zzsym.Assert(w.status == 400, "invalid document: 400 under application/graphql-response+json")
+		} else {
+			zzsym.Assert(w.status == 422, "invalid document: 422 under application/json")
+		}
+	} else {
+		zzsym.Assert(w.status == 200, "a request whose execution started is answered 200")
+	}
+	if hdr != nil {
+		_, polluted := hdr["Content-Type"]
+		zzsym.Assert(!polluted && len(hdr) == len(hRespHdrs[rhi].hdr), "the configured response headers are not modified by serving requests")
+	}
+	zzsym.Reach("c09.negseq")
+}
